@@ -21,7 +21,7 @@ type Row struct {
 	Xmin, Xmax uint64
 	Cmin, Cmax uint32
 	Next       *Row   // newer version created by the updater (Xmax)
-	Locker     uint64 // (sub)transaction xid holding a FOR UPDATE lock
+	Locker     uint64 // xid of the (sub)transaction holding a FOR UPDATE lock
 }
 
 type Index struct {
